@@ -42,7 +42,7 @@ ASSUMPTIONS = [
     "problems are capped in size (ground actions / fluents) and plans in length (k=3 quick, 4 thorough)",
 ]
 SHARD_TIMEOUT = {"quick": 600, "thorough": 5400}
-N = {"quick": 1600, "thorough": 12800}
+N = {"quick": 1600, "thorough": 51200}
 
 
 def plan(tier, seed):
